@@ -13,7 +13,27 @@ What is TRANSLATED (an edit of the source changes the generated text, and the pr
   * the isinstance assertion of every Unslicer.setConstraint -> sc_*   (shape fact, fail closed)
   * Broker._doCall: checkAllArgs(args, kwargs, True) dominates both invocations, same names -> doCall_shape
   * AnswerUnslicer: no object-level check before request.complete -> answer_checks_object
-Everything not recognised raises Untranslatable (fail closed)."""
+Everything not recognised raises Untranslatable (fail closed).
+
+FORMS ACCEPTED BESIDES THE REFERENCE TEXT (each is equivalent to the reference form for all inputs, argument given):
+  * module-level integer constants inside the translated numeric code (`obj >= _INT32_LIMIT`): module_int_consts() takes a
+    name only if it is assigned exactly once, at module level, to a constant integer expression and is stored / declared
+    global / imported / def'ed / used as a parameter name nowhere else in the module, so every load yields that integer.
+  * a "container is full" test reached through `self.h()` (expression statement, no arguments): expand_self_helpers()
+    replaces the call by h's body when h is a method of the same class taking only self, has no return/yield/nested
+    def, shares no stored local with the caller, and no class of the package deriving from that class redefines h; the
+    call then runs exactly that body on the same self and its value is discarded (beta-reduction without parameters).
+  * PolyConstraint.checkToken / checkObject: poly_loop() accepts any local names, `flag = True` as the last statement of
+    the try body (it cannot raise, so it runs iff the alternative's check returned) or after the try statement when the
+    handler is `continue` (reached under exactly the same condition), and `pass` or `continue` as the handler when it is
+    the last statement of the loop body.  The set of swallowed exceptions and "every alternative is consulted, no early
+    return" are still required exactly.
+  * Constraint.checkOpentype: read_checkOpentype() accepts the two loop tests as nested ifs or `and` conjunctions (same
+    evaluations in the same order) and one local `n = len(opentype)` hoisted out of the loop: util.ensure_tuple_str is
+    checked to return `tuple([...])`, so opentype is an exact immutable built-in tuple whose len() never changes.
+NOT accepted (equivalence would need assumptions about types; such refactorings stay tie-broken): caching
+self.argumentNames in a local and dict(zip(..)) instead of the enumerate loop in checkAllArgs; evaluating len(self.list)
+once instead of twice in TupleUnslicer.checkToken (through a guard-and-return helper nested in an expression)."""
 import ast
 from translate import pylite as P
 
@@ -48,6 +68,203 @@ def raises(body, exc):
     return any(isinstance(s, ast.Raise) and exc in U(s) for s in body)
 
 
+def module_int_consts(mod):
+    """NAME -> int for module-level names that are assigned exactly once, at module level, to a constant integer
+    expression, and are stored to nowhere else in the module (no other assignment, augmented assignment, for target,
+    `global`, import or def of that name).  A load of such a name anywhere in the module evaluates to that integer."""
+    cand, count = {}, {}
+    for st in mod.body:
+        if isinstance(st, ast.Assign) and len(st.targets) == 1 and isinstance(st.targets[0], ast.Name):
+            try:
+                v = P.const_expr(st.value, dict(cand))
+            except P.Untranslatable:
+                continue
+            if isinstance(v, int) and not isinstance(v, bool):
+                cand[st.targets[0].id] = v
+    for n in ast.walk(mod):
+        if isinstance(n, ast.Name) and isinstance(n.ctx, (ast.Store, ast.Del)):
+            count[n.id] = count.get(n.id, 0) + 1
+        elif isinstance(n, (ast.Global, ast.Nonlocal)):
+            for x in n.names:
+                count[x] = count.get(x, 0) + 2
+        elif isinstance(n, (ast.FunctionDef, ast.ClassDef)):
+            count[n.name] = count.get(n.name, 0) + 2
+        elif isinstance(n, (ast.Import, ast.ImportFrom)):
+            for a in n.names:
+                nm = (a.asname or a.name).split(".")[0]
+                count[nm] = count.get(nm, 0) + 2
+        elif isinstance(n, ast.arg):
+            count[n.arg] = count.get(n.arg, 0) + 2          # shadowed by a parameter somewhere: do not use it
+    return {k: v for k, v in cand.items() if count.get(k, 0) == 1}
+
+
+def subclasses_in_package(cname):
+    """names of classes of slicers/*.py, constraint.py, schema.py, call.py, referenceable.py, remoteinterface.py, copyable.py
+    that (transitively, by base-class NAME) derive from cname"""
+    import os
+    edges = {}
+    for root, _, files in os.walk(P.SRC):
+        for fn in files:
+            if fn.endswith(".py") and "/test" not in root:
+                try:
+                    mod = ast.parse(open(os.path.join(root, fn)).read())
+                except SyntaxError:
+                    continue
+                for n in ast.walk(mod):
+                    if isinstance(n, ast.ClassDef):
+                        for b in n.bases:
+                            base = b.attr if isinstance(b, ast.Attribute) else getattr(b, "id", None)
+                            if base:
+                                edges.setdefault(base, []).append(n)
+    out, todo = [], [cname]
+    while todo:
+        for c in edges.get(todo.pop(), []):
+            if c not in out:
+                out.append(c)
+                todo.append(c.name)
+    return out
+
+
+def expand_self_helpers(cls, fn):
+    """the statement list of method fn of class cls, with every expression statement `self.h()` (no arguments) replaced by
+    the body of h when: h is a method of cls taking only self, without decorators, whose body (docstring dropped)
+    contains no return / yield / nested def, and no class of the package deriving from cls redefines h.
+    Equivalence (all inputs): `self.h()` then runs exactly cls.h -- for instances of cls and of every subclass in the
+    package -- its value (None) is discarded, and h's body executes the same statements on the same `self` with no
+    parameters to bind and no locals that outlive it (locals of h that clash with fn's locals make it ineligible)."""
+    meths = {n.name: n for n in cls.body if isinstance(n, ast.FunctionDef)}
+    subs = subclasses_in_package(cls.name)
+    fn_locals = {n.id for n in ast.walk(fn) if isinstance(n, ast.Name)} | {a.arg for a in fn.args.args}
+
+    def eligible(h):
+        if h.decorator_list or len(h.args.args) != 1 or h.args.vararg or h.args.kwarg or h.args.kwonlyargs:
+            return False
+        body = [x for x in h.body if not (isinstance(x, ast.Expr) and isinstance(x.value, ast.Constant))]
+        for x in body:
+            for n in ast.walk(x):
+                if isinstance(n, (ast.Return, ast.Yield, ast.YieldFrom, ast.FunctionDef, ast.Lambda, ast.ClassDef)):
+                    return False
+                if isinstance(n, ast.Name) and isinstance(n.ctx, ast.Store) and n.id in fn_locals:
+                    return False
+        if any(any(isinstance(m, ast.FunctionDef) and m.name == h.name for m in c.body) for c in subs):
+            return False
+        return True
+
+    def expand(stmts):
+        out = []
+        for st in stmts:
+            if isinstance(st, ast.Expr) and isinstance(st.value, ast.Call) and not st.value.args and not st.value.keywords \
+                    and isinstance(st.value.func, ast.Attribute) and isinstance(st.value.func.value, ast.Name) \
+                    and st.value.func.value.id == "self" and st.value.func.attr in meths and eligible(meths[st.value.func.attr]):
+                h = meths[st.value.func.attr]
+                out += [x for x in h.body if not (isinstance(x, ast.Expr) and isinstance(x.value, ast.Constant))]
+            else:
+                out.append(st)
+        return out
+    return expand(fn.body)
+
+
+def poly_loop(fn, qual, method, argnames, excs):
+    """PolyConstraint.checkToken / checkObject: "accepted iff at least one alternative accepts, every alternative is
+    consulted, exactly the exceptions `excs` of an alternative are swallowed".  Accepted forms (locals may have any names):
+        flag = False
+        for v in self.alternatives:
+            try:
+                v.<method>(<argnames>)
+                flag = True                 # form A: the assignment cannot raise, so it runs iff the call returned
+            except <excs>:
+                pass | continue             # last statement of the loop body: `continue` == `pass`
+        if not flag: raise Violation(...)
+    and form B, where `flag = True` stands AFTER the try statement and the handler is `continue` (the assignment is
+    reached iff the call returned normally -- the same condition as in form A).  Anything else: Untranslatable."""
+    body = [x for x in fn.body if not (isinstance(x, ast.Expr) and isinstance(x.value, ast.Constant))]
+    need(len(body) == 3 and isinstance(body[0], ast.Assign) and isinstance(body[0].targets[0], ast.Name) and
+         isinstance(body[0].value, ast.Constant) and body[0].value.value is False and isinstance(body[1], ast.For) and
+         isinstance(body[2], ast.If), qual + ": not `flag = False; for ..; if not flag: raise`")
+    flag = body[0].targets[0].id
+    loop, fin = body[1], body[2]
+    need(isinstance(loop.target, ast.Name) and str(U(loop.iter)) == "self.alternatives" and not loop.orelse, qual + ": loop header")
+    v = loop.target.id
+    need(v != flag, qual + ": loop variable is the flag")
+    need(str(U(fin.test)) == "not " + flag and raises(fin.body, "Violation") and not fin.orelse and len(fin.body) == 1, qual + ": final test")
+    set_true = lambda st: isinstance(st, ast.Assign) and len(st.targets) == 1 and str(U(st.targets[0])) == flag and \
+        isinstance(st.value, ast.Constant) and st.value.value is True
+    lb = loop.body
+    need(lb and isinstance(lb[0], ast.Try), qual + ": loop body does not start with try")
+    tr = lb[0]
+    need(not tr.orelse and not tr.finalbody and len(tr.handlers) == 1 and tr.handlers[0].name is None, qual + ": try shape")
+    h = tr.handlers[0]
+    ht = h.type
+    got = sorted(str(U(e)) for e in ht.elts) if isinstance(ht, ast.Tuple) else [str(U(ht))] if ht is not None else None
+    need(got == sorted(excs), qual + ": swallows %s instead of %s" % (got, sorted(excs)))
+    call_ok = lambda st: isinstance(st, ast.Expr) and isinstance(st.value, ast.Call) and \
+        str(U(st.value.func)) == "%s.%s" % (v, method) and [str(U(a)) for a in st.value.args] == argnames and not st.value.keywords
+    if len(lb) == 1:                                            # form A
+        need(len(tr.body) == 2 and call_ok(tr.body[0]) and set_true(tr.body[1]), qual + ": try body (form A)")
+        need(len(h.body) == 1 and isinstance(h.body[0], (ast.Pass, ast.Continue)), qual + ": handler (form A)")
+    else:                                                       # form B
+        need(len(lb) == 2 and set_true(lb[1]) and len(tr.body) == 1 and call_ok(tr.body[0]), qual + ": loop body (form B)")
+        need(len(h.body) == 1 and isinstance(h.body[0], ast.Continue), qual + ": handler (form B) must be `continue`")
+    need([a.arg for a in fn.args.args] == ["self"] + argnames, qual + ": parameters")
+
+
+def return_paths(stmts, qual):
+    """a block made only of `if C: <block>` statements without else, whose innermost blocks are a bare `return`:
+    -> the list of condition sequences that lead to a return, in program order.  `if A: if B: return` and
+    `if A and B: return` give the same sequence [A, B]: both evaluate A, then (only if A is true) B, and return iff both
+    are true -- the same evaluations in the same order for all inputs."""
+    out = []
+    for st in stmts:
+        need(isinstance(st, ast.If) and not st.orelse, qual + ": unexpected statement " + str(U(st))[:80])
+        conds = list(st.test.values) if isinstance(st.test, ast.BoolOp) and isinstance(st.test.op, ast.And) else [st.test]
+        if len(st.body) == 1 and isinstance(st.body[0], ast.Return) and st.body[0].value is None:
+            out.append([str(U(c)) for c in conds])
+        else:
+            for sub in return_paths(st.body, qual):
+                out.append([str(U(c)) for c in conds] + sub)
+    return out
+
+
+def read_checkOpentype(fn):
+    """Constraint.checkOpentype must be:  opentypes None -> accept;  opentype = ensure_tuple_str(opentype);
+    ('reference',) -> accept;  for o in self.opentypes: accept on an exact match of equal length, accept on a proper
+    prefix of a longer o;  otherwise Violation.
+    Besides the reference text this accepts (a) the two tests of the loop written as nested ifs or as `and`
+    conjunctions (see return_paths), and (b) ONE local `n = len(opentype)` assigned between the ensure_tuple_str line and
+    the loop and used instead of len(opentype): util.ensure_tuple_str is checked to return `tuple([...])` on its only
+    path, so opentype is an exact built-in tuple there, it is not re-bound afterwards, and len() of an immutable tuple
+    is the same number every time it is evaluated."""
+    qual = "Constraint.checkOpentype"
+    body = [x for x in fn.body if not (isinstance(x, ast.Expr) and isinstance(x.value, ast.Constant))]
+    need(len(body) >= 5 and flat(str(U(body[0]))) == "if self.opentypes == None: return" and
+         flat(str(U(body[1]))) == "opentype = ensure_tuple_str(opentype)" and
+         flat(str(U(body[2]))) == "if opentype == ('reference',): return", qual + ": head changed")
+    ets = P.find_def(P.load("util.py"), "ensure_tuple_str")
+    eb = [x for x in ets.body if not (isinstance(x, ast.Expr) and isinstance(x.value, ast.Constant))]
+    need(len(eb) == 1 and isinstance(eb[0], ast.Return) and isinstance(eb[0].value, ast.Call) and str(U(eb[0].value.func)) == "tuple"
+         and not any(isinstance(n, (ast.FunctionDef, ast.ClassDef, ast.Assign)) and
+                     ("tuple" in [getattr(n, "name", None)] + [str(U(t)) for t in getattr(n, "targets", [])])
+                     for n in ast.walk(P.load("util.py"))), "util.ensure_tuple_str no longer returns tuple(...)")
+    rest = body[3:]
+    alias = None
+    if isinstance(rest[0], ast.Assign) and len(rest[0].targets) == 1 and isinstance(rest[0].targets[0], ast.Name) and \
+            str(U(rest[0].value)) == "len(opentype)":
+        alias = rest[0].targets[0].id
+        rest = rest[1:]
+    need(len(rest) == 2 and isinstance(rest[0], ast.For) and isinstance(rest[1], ast.Raise) and "Violation" in str(U(rest[1])),
+         qual + ": tail is not `for ..: ..; raise Violation`")
+    loop = rest[0]
+    need(str(U(loop.target)) == "o" and str(U(loop.iter)) == "self.opentypes" and not loop.orelse, qual + ": loop header")
+    stores = [n for n in ast.walk(loop) if isinstance(n, ast.Name) and isinstance(n.ctx, ast.Store) and n.id in ("opentype", alias)]
+    need(not stores, qual + ": opentype / its length re-bound inside the loop")
+    paths = return_paths(loop.body, qual)
+    if alias:
+        import re
+        paths = [[re.sub(r"\b%s\b" % re.escape(alias), "len(opentype)", c) for c in p_] for p_ in paths]
+    need(paths == [["len(o) == len(opentype)", "o == opentype"], ["len(o) > len(opentype)", "opentype == o[:len(opentype)]"]],
+         qual + ": the loop accepts on %r" % (paths,))
+
+
 def len_guard(fn, qual, attr, lenexpr="len(obj)"):
     """the unique `if [self.A != None and] len(obj) OP self.A: raise Violation` of a checkObject -> (OP, optional?)"""
     cands = [n for n in ast.walk(fn) if isinstance(n, ast.If) and ("self." + attr) in U(n.test) and lenexpr in U(n.test)]
@@ -73,7 +290,7 @@ def full_guard(cls, qual, meths, lhs, rhs, optional_attr):
     for m in meths:
         fn = P.find_def(cls, m)
         found = []
-        for n in ast.walk(fn):
+        for n in ast.walk(ast.Module(body=expand_self_helpers(cls, fn), type_ignores=[])):
             if not isinstance(n, ast.If):
                 continue
             t = n.test
@@ -155,9 +372,10 @@ def generate():
     need(isinstance(rng, ast.If) and U(rng.test) == "self.maxBytes == -1" and len(rng.orelse) == 1 and
          isinstance(rng.orelse[0], ast.If) and U(rng.orelse[0].test) == "self.maxBytes != None" and not rng.orelse[0].orelse,
          "IntegerConstraint.checkObject: dispatch on maxBytes changed")
-    spec = dict(params=dict(obj=P.Z), ret=P.U)
+    mconsts = module_int_consts(cm)
+    spec = dict(params=dict(obj=P.Z), ret=P.U, consts=mconsts)
     out.append(P.translate_block("int_check_32", rng.body, ["obj"], spec))
-    spec = dict(params=dict(obj=P.Z), ret=P.U, attrs=dict(maxBytes=P.Z))
+    spec = dict(params=dict(obj=P.Z), ret=P.U, attrs=dict(maxBytes=P.Z), consts=mconsts)
     out.append(P.translate_block("int_check_mb", rng.orelse[0].body, ["obj"], spec))
     out.append("Definition int_check (obj : Z) (maxBytes : option Z) : res unit :=\n"
                " match maxBytes with None => Ok tt | Some mb => if Z.eqb mb (-1) then int_check_32 obj else int_check_mb obj mb end.")
@@ -209,12 +427,10 @@ def generate():
     out.append("Definition token_size_cmp : scmp := %s.   (* `%s` -> Violation *)" % (CMP[type(t.values[1].ops[0])], U(t)))
     out.append("Definition token_limit_zero_unlimited : bool := %s.  (* guard `%s`: is a limit of 0 treated as no limit? *)"
                % ("true" if U(t.values[0]) == "limit" else "false", U(t.values[0])))
-    pc = P.find_def(P.load("schema.py"), "PolyConstraint.checkToken")
-    need("for c in self.alternatives" in U(pc) and "except (Violation, BananaError)" in U(pc) and "if not ok" in U(pc),
-         "PolyConstraint.checkToken changed")
-    pco = P.find_def(P.load("schema.py"), "PolyConstraint.checkObject")
-    need("for c in self.alternatives" in U(pco) and "c.checkObject(obj, inbound)" in U(pco) and "if not ok" in U(pco),
-         "PolyConstraint.checkObject changed")
+    poly_loop(P.find_def(P.load("schema.py"), "PolyConstraint.checkToken"), "PolyConstraint.checkToken", "checkToken",
+              ["typebyte", "size"], ["Violation", "BananaError"])
+    poly_loop(P.find_def(P.load("schema.py"), "PolyConstraint.checkObject"), "PolyConstraint.checkObject", "checkObject",
+              ["obj", "inbound"], ["Violation"])
     need(class_attr(P.find_class(P.load("schema.py"), "PolyConstraint"), "opentypes") is None and
          not any(isinstance(n, ast.FunctionDef) and n.name == "checkOpentype"
                  for n in P.find_class(P.load("schema.py"), "PolyConstraint").body),
@@ -380,11 +596,7 @@ def generate():
             for o_ in ots:
                 need(o_ in OT, "%s: opentype %r outside the model" % (name, o_))
             out.append("Definition opentypes_%s : option (list otype) := Some [%s]." % (short, "; ".join(OT[o_] for o_ in ots)))
-    co = P.find_def(cm, "Constraint.checkOpentype")
-    src = U(co)
-    for frag in ("if self.opentypes == None:\n        return", "if opentype == ('reference',):\n        return",
-                 "if o == opentype:\n                    return", "raise Violation"):
-        need(frag in src, "Constraint.checkOpentype no longer contains: " + frag)
+    read_checkOpentype(P.find_def(cm, "Constraint.checkOpentype"))
 
     # ---------------------------------------------------------------- sendToken's integer branch as (typebyte, size)
     st = P.find_def(P.load("banana.py"), "Banana.sendToken")
